@@ -9,7 +9,7 @@ import (
 // C17_caller_bytes: the write-side APIs documented as non-mutating leave the caller's slice
 // bit-for-bit intact (client side = masking involved).
 func C17_caller_bytes() {
-	n := []int{0, 1, 5, 130, 65537, 65539}[vChoose("n", 6)]
+	n := []int{0, 1, 5, 126, 130, 4097, 65537, 65539}[vChoose("n", 8)]
 	var p []byte
 	if n <= 130 {
 		p = vBytes("p", n)
